@@ -469,6 +469,28 @@ class _ParseCounter:
         return False
 
 
+def _generated_setters():
+    """every generated setter of the imported package with its closure cell `types` and the cell's content now
+    (called once at import, before any MontePy code has run: the content is the declared one)"""
+    out = []
+    seen = set()
+    for modname, mod in sorted(sys.modules.items()):
+        if not modname.startswith("montepy") or mod is None:
+            continue
+        for k in vars(mod).values():
+            if isinstance(k, type) and k.__module__.startswith("montepy") and k not in seen:
+                seen.add(k)
+                for name, attr in vars(k).items():
+                    fset = getattr(attr, "fset", None) if isinstance(attr, property) else None
+                    if fset is not None and fset.__closure__ and "types" in fset.__code__.co_freevars:
+                        cell = fset.__closure__[fset.__code__.co_freevars.index("types")]
+                        out.append((f"{k.__name__}.{name}", cell, cell.cell_contents))
+    return out
+
+
+_SETTERS = _generated_setters()
+
+
 def world_state():
     from montepy.input_parser import input_syntax_reader
     from montepy.input_parser.parser_base import MCNP_Parser
@@ -477,7 +499,8 @@ def world_state():
     for entry in list(input_syntax_reader.reading_queue):
         fname = entry[1]
         q.append(int(fname[1:-4]) if fname.startswith("f") and fname.endswith(".txt") and fname[1:-4].isdigit() else fname)
-    return {"queue": q, "log": len(MCNP_Parser.log) > 0}
+    latched = sorted(name for name, cell, declared in _SETTERS if cell.cell_contents is not declared)
+    return {"queue": q, "log": len(MCNP_Parser.log) > 0, "latched": latched}
 
 
 def execute(run, tmp=None):
